@@ -14,11 +14,7 @@ static int ref_cast(int nf, const int *f, int nt, const int *t) {
   return 1;
 }
 int main(void) {
-#ifdef NF
-  int nf = NF, nt = NT;      /* concrete lengths (the driver enumerates all pairs): symbolic lengths make the pointer arithmetic explode */
-#else
   IN(int, nf); IN(int, nt);
-#endif
   IN_ARR(int, f, 8); IN_ARR(int, t, 8);      /* the wrapper reads 8 selectors; only the first nf / nt matter */
   VASSUME(nf >= 0 && nf <= NMAX && nt >= 0 && nt <= NMAX);
 #ifdef EMPTY
